@@ -289,16 +289,54 @@ theorem handleMessage_ok (env : Env) {σ : State} (h : Inv σ) (remote : Nid) (m
 
 /-! ### connection events, runs -/
 
+/-- Pruning the fetches of `remote` keeps every other session justified. -/
+theorem failFetches_other {σ : State} (h : Inv σ) (remote : Nid) :
+    ∀ k s2 fs aw, k ≠ remote → σ.sessions k = some s2 → s2.state = .connected fs aw →
+      ∀ rid, rid ∈ fs → ∃ r, failFetches σ remote rid = some (k, r) := by
+  intro k s2 fs aw hk hs2 hst rid hrid
+  obtain ⟨r, hr⟩ := h.fetching k s2 fs aw hs2 hst rid hrid
+  exact ⟨r, by simp [failFetches, hr, hk]⟩
+
+/-- Replacing the session of `remote` by one that fetches nothing, with or without pruning its fetches. -/
+theorem Inv.resetSession {σ : State} (h : Inv σ) (remote : Nid) (s' : Option Session)
+    (hid : ∀ s, s' = some s → s.id = remote)
+    (hidle : ∀ s fs aw, s' = some s → s.state = .connected fs aw → fs = []) :
+    Inv { σ with fetching := failFetches σ remote, sessions := upd σ.sessions remote s' } := by
+  refine ⟨?_, ?_, h.clock⟩
+  · intro k' s2 hs2
+    by_cases hk : k' = remote
+    · subst hk
+      simp only [upd_same] at hs2
+      exact hid s2 hs2
+    · simp only [upd_other _ hk] at hs2
+      exact h.ids k' s2 hs2
+  · intro k' s2 fs aw hs2 hst rid hrid
+    by_cases hk : k' = remote
+    · subst hk
+      simp only [upd_same] at hs2
+      rw [hidle s2 fs aw hs2 hst] at hrid
+      simp at hrid
+    · simp only [upd_other _ hk] at hs2
+      exact failFetches_other h remote k' s2 fs aw hk hs2 hst rid hrid
+
 theorem connectedInbound_ok {σ : State} (h : Inv σ) (remote : Nid) (host : Host) (ro p : Bool) :
     Inv (connectedInbound σ remote host ro p) := by
   unfold connectedInbound
   cases hs : σ.sessions remote with
   | some s =>
-    refine h.updSession remote _ (h.ids remote s hs) ?_
-    intro fs aw hst rid hrid
-    simp only [Session.toConnected, SessState.connected.injEq] at hst
-    obtain ⟨rfl, _⟩ := hst
-    simp at hrid
+    simp only
+    split
+    · refine h.resetSession remote (some s.toConnected) ?_ ?_
+      · intro s1 e; simp only [Option.some.injEq] at e; subst e; exact h.ids remote s hs
+      · intro s1 fs aw e hst
+        simp only [Option.some.injEq] at e; subst e
+        simp only [Session.toConnected, SessState.connected.injEq] at hst
+        exact hst.1.symm
+    · refine h.updSession remote _ (h.ids remote s hs) ?_
+      intro fs aw hst rid hrid
+      simp only [Session.toConnected, SessState.connected.injEq] at hst
+      obtain ⟨rfl, _⟩ := hst
+      simp at hrid
   | none =>
     refine h.updSession remote _ rfl ?_
     intro fs aw hst rid hrid
@@ -312,43 +350,15 @@ theorem disconnected_ok {σ : State} (h : Inv σ) (remote : Nid) : Inv (disconne
   | none => exact h
   | some s =>
     simp only
-    -- the pruned fetch table still justifies every other session
-    have hf : ∀ k s2 fs aw, k ≠ remote → σ.sessions k = some s2 → s2.state = .connected fs aw →
-        ∀ rid, rid ∈ fs → ∃ r,
-          (match σ.fetching rid with
-            | some (f, r) => if f = remote then none else some (f, r)
-            | none => none) = some (k, r) := by
-      intro k s2 fs aw hk hs2 hst rid hrid
-      obtain ⟨r, hr⟩ := h.fetching k s2 fs aw hs2 hst rid hrid
-      exact ⟨r, by simp [hr, hk]⟩
     split
-    · refine ⟨?_, ?_, h.clock⟩
-      · intro k' s2 hs2
-        by_cases hk : k' = remote
-        · subst hk
-          simp only [upd_same, Option.some.injEq] at hs2
-          subst hs2; exact h.ids k' s hs
-        · simp only [upd_other _ hk] at hs2
-          exact h.ids k' s2 hs2
-      · intro k' s2 fs aw hs2 hst rid hrid
-        by_cases hk : k' = remote
-        · subst hk
-          simp only [upd_same, Option.some.injEq] at hs2
-          subst hs2
-          simp at hst
-        · simp only [upd_other _ hk] at hs2
-          exact hf k' s2 fs aw hk hs2 hst rid hrid
-    · refine ⟨?_, ?_, h.clock⟩
-      · intro k' s2 hs2
-        by_cases hk : k' = remote
-        · subst hk; simp [upd_same] at hs2
-        · simp only [upd_other _ hk] at hs2
-          exact h.ids k' s2 hs2
-      · intro k' s2 fs aw hs2 hst rid hrid
-        by_cases hk : k' = remote
-        · subst hk; simp [upd_same] at hs2
-        · simp only [upd_other _ hk] at hs2
-          exact hf k' s2 fs aw hk hs2 hst rid hrid
+    · refine h.resetSession remote (some { s with state := .disconnected }) ?_ ?_
+      · intro s1 e; simp only [Option.some.injEq] at e; subst e; exact h.ids remote s hs
+      · intro s1 fs aw e hst
+        simp only [Option.some.injEq] at e; subst e
+        simp at hst
+    · refine h.resetSession remote none ?_ ?_
+      · intro s1 e; simp at e
+      · intro s1 fs aw e; simp at e
 
 theorem step_ok (env : Env) {σ : State} (h : Inv σ) (op : Op) : Good (step Code.current env σ op) := by
   cases op with
